@@ -231,7 +231,7 @@ impl NetworkBehaviour for Wrap {
                 "newblocks {}",
                 bs.iter().map(|(c, d)| format!("{}:{}", key(c), id_of_data(d).unwrap_or(0))).collect::<Vec<_>>().join(",")
             ),
-            VHandlerEvent::SendingStateChanged(p, s) => format!("sending {} {}", t.peer(&p), show_sending(&s)),
+            VHandlerEvent::SendingStateChanged(p, s) => format!("sending {} {} {}", t.peer(&p), conn_num(&connection_id), show_sending(&s)),
             VHandlerEvent::ClientClosingConnection(p, c) => format!("closing {} {}", t.peer(&p), conn_num(&c)),
         };
         self.inner.on_connection_handler_event(peer_id, connection_id, event);
